@@ -7,6 +7,7 @@
 include!(concat!(env!("OUT_DIR"), "/gram_mods.rs"));
 
 mod cli;
+mod coerce;
 mod edit;
 mod emut;
 mod core;
